@@ -201,5 +201,94 @@ func traceUpdater(t *testing.T, o opts) {
 			}
 		}
 		st.Close()
+		mixedUpdater(h)
 	}
+}
+
+// mixedVal: an Updater's T may be an interface type whose values are of different dynamic
+// types - some of them io.Closers, some not.
+type mixedVal interface{ Src() string }
+
+type plainV struct{ src string }
+
+func (p plainV) Src() string { return p.src }
+
+type closerV struct {
+	src    string
+	closed *int
+}
+
+func (c *closerV) Src() string  { return c.src }
+func (c *closerV) Close() error { *c.closed++; return nil }
+
+// mixedUpdater: five installs; the builder alternates between a value that is an io.Closer and
+// one that is not (which comes first depends on the history).  After every install the Get
+// yields a value built from the newest bytes and does not panic; in the end every replaced
+// closer has been closed exactly once and the current value is open.
+//
+//	mixedupd first=<closer|plain> stale= panics= unclosed= multiclosed= curclosed=
+func mixedUpdater(h int) {
+	sv := newSvc()
+	sv.set("m", 1, []byte("m1"))
+	st, err := setec.NewStore(context.Background(), setec.StoreConfig{Client: sv, Secrets: []string{"m"}, PollInterval: -1, Logf: func(string, ...any) {}})
+	if err != nil {
+		return
+	}
+	defer st.Close()
+	closerFirst := h%2 == 0
+	var made []*closerV
+	k := 0
+	u, err := setec.NewUpdater(context.Background(), st, "m", func(b []byte) (mixedVal, error) {
+		k++
+		if (k%2 == 1) == closerFirst {
+			c := &closerV{src: string(b), closed: new(int)}
+			made = append(made, c)
+			return c, nil
+		}
+		return plainV{src: string(b)}, nil
+	})
+	if err != nil {
+		return
+	}
+	stale, panics := 0, 0
+	for ver := uint32(2); ver <= 6; ver++ {
+		val := fmt.Sprintf("m%d", ver)
+		sv.set("m", ver, []byte(val))
+		st.Refresh(context.Background())
+		func() {
+			defer func() {
+				if recover() != nil {
+					panics++
+				}
+			}()
+			if v := u.Get(); v == nil || v.Src() != val {
+				stale++
+			}
+		}()
+	}
+	var cur mixedVal
+	func() {
+		defer func() { recover() }()
+		cur = u.Get()
+	}()
+	unclosed, multi, curClosed := 0, 0, 0
+	for _, c := range made {
+		isCur := false
+		if cc, ok := cur.(*closerV); ok && cc == c {
+			isCur = true
+		}
+		switch {
+		case isCur && *c.closed != 0:
+			curClosed++
+		case !isCur && *c.closed == 0:
+			unclosed++
+		case !isCur && *c.closed > 1:
+			multi++
+		}
+	}
+	first := "plain"
+	if closerFirst {
+		first = "closer"
+	}
+	emit("mixedupd\tfirst=%s\tstale=%d\tpanics=%d\tunclosed=%d\tmulticlosed=%d\tcurclosed=%d", first, stale, panics, unclosed, multi, curClosed)
 }
